@@ -64,6 +64,7 @@ class Agg:
         self.outcomes = set()
         self.digests = []
         self.harness_errors = []
+        self.extras = []   # (task, extra) pairs: free-form data a driver hands to its finalize()
 
     def merge(self, task, res, driver):
         if res is None:
@@ -95,6 +96,8 @@ class Agg:
         self.transitions += res.get('transitions', 0)
         self.outcomes.update(res.get('outcomes', ()))
         self.digests.append(res.get('digest'))
+        if res.get('extra') is not None:
+            self.extras.append((task, res['extra']))
 
 
 def run_bfs(driver, pool, agg, tier, seed, log):
